@@ -29,7 +29,7 @@ def gen_language(rng, h):
     F = un[0]
     nops = rng.randint(4, 7)
     for i in range(nops):
-        kind = rng.choice(["mono", "mono", "poly", "poly", "constr", "ho", "data", "pdata", "inst"])
+        kind = rng.choice(["mono", "mono", "poly", "poly", "constr", "ho", "data", "pdata", "inst", "wp"])
         if i == 0:
             # every language has one operator of the shape of the property's own example, f : x ** x ** x
             k = rng.choice([2, 3, 3])
@@ -48,6 +48,19 @@ def gen_language(rng, h):
             for p in reversed(params):
                 body = ("o", 3, [p, body])
             ops.append((f"i{i}", (0, body, []), params, res))
+            continue
+        if kind == "wp":
+            # a ** r(b) [a << with_parameters(K1, K2, ...)]: the alternatives are built by the
+            # library's helper each time the signature is instantiated (K(_) or K(b))
+            comp = [q for q in h.ids if h.arity(q) >= 1]
+            ks = rng.sample(comp, k=rng.randint(1, min(2, len(comp))))
+            b_ = ("v", 1)
+            mode = rng.random()
+            c = ("elimwp", ("v", 0), ks, None, None) if mode < 0.5 else \
+                ("elimwp", ("v", 0), ks, b_, None) if mode < 0.8 else ("elimwp", ("v", 0), ks, b_, 1)
+            res = rng.choice([b_, rng.choice(base)])
+            hint = ("o", ks[0], [("w",)] * h.arity(ks[0]))      # what arguments to generate for it
+            ops.append((f"f{i}", (2, ("o", 3, [("v", 0), res]), [c]), [hint], res))
             continue
         if kind == "pdata":
             # a polymorphic constant such as nil : L(x): every occurrence is a fresh instance
@@ -95,7 +108,8 @@ def build_language(h, ops):
             scope[str(op)] = op
     names = {i: (str(h.ops[i]) if i >= 5 else f"op{i}") for i in h.ops}
     env = {str(h.ops[i]): h.ops[i] for i in h.ops if i >= 5}
-    env.update({"op0": h.ops[0], "op1": h.ops[1], "op2": h.ops[2], "_": tf._})
+    env.update({"op0": h.ops[0], "op1": h.ops[1], "op2": h.ops[2], "_": tf._,
+                "with_parameters": tf.type.with_parameters})
     from transforge.expr import DeclarationError
     kept = []
     for name, sc, params, res in ops:
@@ -490,7 +504,9 @@ def main(tier: str, seed: int, replay: str | None = None) -> int:
         ops = gen_language(rng, h)
         try:
             lang, names = build_language(h, ops)
-        except Exception:  # a generated schema may already be inconsistent at declaration
+        except Exception as e:  # a generated schema may already be inconsistent at declaration
+            if isinstance(e, (NameError, AttributeError, KeyError, SyntaxError)):
+                raise           # a defect of this harness, not of the generated language
             continue
         progs = []
         for _ in range(npl):
